@@ -276,7 +276,13 @@ impl<'a, 'c, 'cc> TypVisitor for ScriptVis<'a, 'c, 'cc> {
             None => return Err("no query-randomness stream recorded".into()),
         };
         let _ = all;
-        let encoded = typ.encode_measurement(&meas).map_err(|e| e.to_string())?;
+        let encoded = match typ.encode_measurement(&meas) {
+            Ok(v) => v,
+            Err(e) => {
+                ctx.fail(Violation::new("C05.complete", "encode_measurement|refused".to_string(), format!("encode_measurement refused an in-range measurement: {e}")));
+                return Ok(());
+            }
+        };
         let fs = T::Field::ENCODED_SIZE;
         let lb = shares[0].get_encoded().map_err(|e| e.to_string())?;
         let pl = typ.proof_len();
@@ -383,7 +389,13 @@ impl<'a, 'c, 'cc> TypVisitor for LinVis<'a, 'c, 'cc> {
         let from_raw = |x: u128| -> Result<T::Field, String> { T::Field::get_decoded(&x.to_le_bytes()[..esz]).map_err(|e| format!("harness raw value: {e}")) };
         let input: Vec<T::Field> = match self.raw {
             Some(r) => r.iter().map(|x| from_raw(x.0)).collect::<Result<_, _>>()?,
-            None => typ.encode_measurement(&meas).map_err(|e| e.to_string())?,
+            None => match typ.encode_measurement(&meas) {
+                Ok(v) => v,
+                Err(e) => {
+                    ctx.fail(Violation::new("C05.complete", "encode_measurement|refused".to_string(), format!("encode_measurement refused an in-range measurement: {e}")));
+                    return Ok(());
+                }
+            },
         };
         if input.len() != typ.input_len() {
             return Err(format!("harness input length {} != {}", input.len(), typ.input_len()));
@@ -540,7 +552,13 @@ impl<'a, 'c, 'cc> TypVisitor for LenVis<'a, 'c, 'cc> {
             }
         };
         let z = |n: usize| vec![T::Field::one(); n];
-        let mut input = typ.encode_measurement(&meas).map_err(|e| e.to_string())?;
+        let mut input = match typ.encode_measurement(&meas) {
+            Ok(v) => v,
+            Err(e) => {
+                ctx.fail(Violation::new("C05.complete", "encode_measurement|refused".to_string(), format!("encode_measurement refused an in-range measurement: {e}")));
+                return Ok(());
+            }
+        };
         let mut prove_rand = z(typ.prove_rand_len());
         let mut joint_rand = z(typ.joint_rand_len());
         let mut query_rand: Vec<T::Field> = (0..typ.query_rand_len()).map(|i| (0..i + 2).fold(T::Field::zero(), |a, _| a + T::Field::one())).collect();
